@@ -52,6 +52,18 @@ CHECKS = {
     'C18': ('complete value grids deciding bounded-degree polynomial identities with exact rational arithmetic; all swizzle strings; full {-1,0,1}^16 Mat4 inverse grid; tolerance grid for sqrt/angle operations',
             'E3: full grids per operation family (vector arithmetic, cross, lerp, clamp, limit, all swizzles, matrix sums/products on all basis pairs plus dense guards, associativity/identity laws, 43 046 721 integer Mat4 inverses in thorough, constructors through their action on points); sqrt/angle family is a bounded tolerance check only',
             'grid lemma: straight-line arithmetic of bounded per-variable degree (recorded in evidence); CPython int/Fraction exactness', '3/C18'),
+    'C12': ('explicit-state BFS to fixpoint plus exhaustive enumeration of all access/clear sequences of a stated length over every access path of a real Handle / ResourceMap / StaticResourceMap',
+            'E1/E3: all sequences of length <= 6 over six access paths + clear() x 8 loaded values (None, 0, empty containers, hostile __eq__/__bool__); load counter, identity and cached checked after every step',
+            'CPython semantics; values compared by identity only', '3/C12'),
+    'C17': ('bounded-exhaustive enumeration of resource trees (names incl. non-identifiers, keyword, dunder; layered handles) against the live map, with mutation attempts on every snapshot',
+            'E3: every resource tree with <= 4 nodes per map / <= 5 nodes in total over 6 names, two layering styles; every path through item, attribute and get access; every absent name; setattr/delattr attempts on every (sub-)snapshot followed by a full re-comparison',
+            'CPython semantics; names colliding with the snapshot\'s own members excluded (statement)', '3/C17'),
+    'C19': ('explicit-state twin exploration of two real Worlds to fixpoint (controller shorthand vs World call, canonical-key equality); exhaustive enumeration of Prototype subclass shapes and OnUpdateProcessor cases',
+            'E1: all World operation histories (2 ids, A/B(A)/X/Controller, processors, dispatch toggles) with every shorthand applied in every reached state to one twin through the Controller and to the other through World; E3: every Prototype shape (6 type lists x sources x prefix x subclass override), OnUpdateProcessor 0-3 listeners x dt sequences',
+            'CPython semantics; twin equality through the generic canonical key', '3/C19'),
+    'C20': ('explicit-state BFS over assignment histories on real Transform2D/3D instances with listeners on every event subset; exhaustive constructor / listener-subset families',
+            'E1: all assignment histories to depth 4 (fixpoint for the shared-listener layout) over 2 instances x 3 properties x 8 rotations / 3 vectors; E3: all listener subset pairs, all constructor argument combinations',
+            'CPython semantics', '3/C20'),
 }
 
 NOT_YET = {p: 'check under construction (planned in DESIGN.md section 3); not claimed yet' for p in
